@@ -295,14 +295,21 @@ class Evaluator:
                 rng = rng.items
             if not isinstance(rng, (list, tuple)):
                 raise Broken("range-for over something the abstract domain does not model")
-            for item in list(rng):
+            vt = (s["var"].get("t") or "").strip()
+            by_ref = vt.endswith("&") and not vt.endswith("&&") and not vt.startswith("const ") and " const &" not in vt and isinstance(rng, list)
+            for i_, item in enumerate(list(rng)):
                 env[s["var"]["id"]] = item
                 try:
                     self.block(s["body"], env, this)
                 except Break:
+                    if by_ref and i_ < len(rng) and env.get(s["var"]["id"]) is not item:
+                        rng[i_] = env[s["var"]["id"]]
                     break
                 except Continue:
-                    continue
+                    pass
+                # `for (auto &x: v) x = ...;` assigns to the element itself
+                if by_ref and i_ < len(rng) and env.get(s["var"]["id"]) is not item:
+                    rng[i_] = env[s["var"]["id"]]
         elif k == "throw":
             raise Thrown(s.get("l"))
         elif k == "try":
